@@ -35,6 +35,11 @@ def numpy_pandas_coercible(series: pd.Series, type_: Any) -> pd.Series:
         except Exception:  # pylint:disable=broad-except
             return False
 
+    if isinstance(series.dtype, pd.CategoricalDtype):
+        # mapping a categorical maps its categories and gives a categorical
+        # back, which cannot be used as a boolean check output
+        series = series.astype(object)
+
     return series.map(_coercible)
 
 
